@@ -417,8 +417,15 @@ Definition read_seconds (t : str) : option N :=
   | [a; z] => if str_eqb z (s "0") then py_nat a else None
   | _ => None
   end.
-Definition flux_walltime_ok (declared read : option str) : bool :=
-  match flux_seconds declared, read with
+(** the declared walltime of a step in seconds: a number (int or integral float)
+    is a number of minutes, a text is read by [flux_seconds] *)
+Definition flux_declared_seconds (st : step) : option N :=
+  match lookup (s "walltime") (st_res st) with
+  | Some (VFloat n) => Some (n * 60)
+  | _ => flux_seconds (declared (st_res st) RWalltime)
+  end.
+Definition flux_walltime_ok (secs : option N) (read : option str) : bool :=
+  match secs, read with
   | Some x, Some r => match read_seconds r with Some y => x =? y | None => false end
   | _, _ => false
   end.
@@ -538,7 +545,7 @@ Definition lsf_dom (c : case) : bool :=
     version / uri / broker texts, printable -o options *)
 Definition flux_dom (c : case) : bool :=
   let st := c_step c in
-  match flux_seconds (declared (st_res st) RWalltime) with Some _ => true | None => false end
+  match flux_declared_seconds st with Some _ => true | None => false end
   && match lookup (s "walltime") (st_res st) with Some VNone => false | _ => true end
   && match lookup (s "nodes") (b_kw (c_batch c)) with Some v => truthy v | None => true end
   && negb (memb nl (c_broker c))
@@ -698,7 +705,7 @@ Definition lsf_script_ok (c : case) (ps : list piece) (text : str) : bool :=
 Definition flux_script_ok (c : case) (ps : list piece) (text : str) : bool :=
   str_eqb (first_line text) (shebang_of (c_batch c))
   && opt_eqb (read_flux_info text (s "nodes")) (effective_flux_nodes (c_batch c) (c_step c))
-  && flux_walltime_ok (effective (c_batch c) (c_step c) RWalltime) (read_flux_info text (s "walltime"))
+  && flux_walltime_ok (flux_declared_seconds (c_step c)) (read_flux_info text (s "walltime"))
   && negb (containsb launcher_var (script_body text))
   && match_body (launch_ok_flux (c_batch c) (c_step c)) (ps ++ [PText [nl]]) (script_body text).
 (** a local script: shebang, then the command verbatim *)
